@@ -56,6 +56,8 @@ type vfTWCase struct {
 	StallFrame int `json:"stall_frame,omitempty"`
 	StallBytes int `json:"stall_bytes,omitempty"`
 	StallMs    int `json:"stall_ms,omitempty"`
+	// LogFrameRate: thermal-writer started with its frame-rate diagnostics on (-r): logging only
+	LogFrameRate bool `json:"log_frame_rate,omitempty"`
 }
 
 func vfGenTW(t *rapid.T) vfTWCase {
@@ -116,6 +118,7 @@ func vfGenTW(t *rapid.T) vfTWCase {
 		}
 	}
 	c.Stale = rapid.IntRange(0, 3).Draw(t, "stale") == 0
+	c.LogFrameRate = rapid.IntRange(0, 2).Draw(t, "lograte") == 0
 	return c
 }
 
@@ -285,7 +288,7 @@ func vfRunTW(c vfTWCase) *kit.Result {
 				done <- fmt.Errorf("PANIC in handleConn: %v", p)
 			}
 		}()
-		done <- handleConn(server, conf, false)
+		done <- handleConn(server, conf, c.LogFrameRate)
 	}()
 	var stopBurn int32
 	var bw sync.WaitGroup
@@ -614,7 +617,7 @@ func vfTWPlainConn(dir string, c vfTWCase) error {
 				done <- fmt.Errorf("PANIC in handleConn: %v", p)
 			}
 		}()
-		done <- handleConn(server, conf, false)
+		done <- handleConn(server, conf, c.LogFrameRate)
 	}()
 	client.SetWriteDeadline(time.Now().Add(20 * time.Second))
 	if _, err := client.Write(hdr); err != nil {
